@@ -632,10 +632,6 @@ func c16Reject(c *Ctx, pr *PropertyRun) {
 	p := c.P
 	r := NewRule("C16", "C16.reject", "in every function of the library the error of a fallible parse is tested before its value is used (E4 RESULT-CHECKED over the whole library)")
 	pr.Rules = append(pr.Rules, r)
-	exempt := map[string]string{
-		"internal.isContentXML|mime.ParseMediaType":  "on error the media type is empty, which selects the 'not XML' branch; the value is only compared with constants",
-		"(*internal.Client).Do|mime.ParseMediaType": "on error the media type is empty, which selects the no-detail branch; the status is still reported",
-	}
 	for _, fn := range p.ModFns {
 		if !inLib(fn) || len(fn.Blocks) == 0 {
 			continue
@@ -646,11 +642,11 @@ func c16Reject(c *Ctx, pr *PropertyRun) {
 				return
 			}
 			name := calleeName(call.Common())
-			if !parseCalls[name] {
+			if !isParseName(p, name) {
 				return
 			}
 			r.Role("parse-call")
-			if why, ok := exempt[fnKey(fn)+"|"+name]; ok {
+			if ok, why := harmlessOnError(call); ok {
 				r.Note("exempt %s in %s: %s", name, fnKey(fn), why)
 				return
 			}
